@@ -122,6 +122,12 @@ def reset_paths(ctx, clr):
                     empty = _fv(fd_, x_) is True if x_[1].endswith("is_empty") else _fv(fd_, _mk("Eq", x_, _const(0))) is True
                     if empty:
                         rs.add((x_[2][0][2],))
+            # a scalar the path has just found equal to a constant holds that constant without a store (`if .. && self.n == 0 { return; }`)
+            if c_[0] == "op" and c_[1] in ("Eq", "Ne") and len(c_[2]) == 2 and t_ is (c_[1] == "Eq"):
+                for a_, b_ in (c_[2], c_[2][::-1]):
+                    if a_[0] == "field" and a_[1][:2] == ("param", 1) and b_[0] == "const" and (a_[2],) not in rs:
+                        rs.add((a_[2],))
+                        const_stores.setdefault((a_[2],), set()).add(b_[1])
         per_path.append(rs)
     if not per_path:
         return None, [], const_stores
